@@ -1,10 +1,11 @@
 """runs every claimed check (quick) against one seeded change; prints which fire. usage: seedall.py <seed name> [pids...]"""
 import json, os, subprocess, sys, tempfile, shutil
 VERIF = os.path.dirname(os.path.dirname(os.path.abspath(__file__)))
+BASE = os.environ.get('SEED_BASE', 'HEAD')     # the /repo commit the stored patch was written against
 name = sys.argv[1]
 pids = sys.argv[2:] or [c['property_id'] for c in json.load(open(os.path.join(VERIF, 'MANIFEST.json')))['checks']]
 wt = tempfile.mkdtemp(prefix=f'seedall_{name}_', dir='/tmp'); os.rmdir(wt)
-subprocess.run(f'git -C /repo worktree add -q --detach {wt} HEAD && git -C {wt} apply {VERIF}/seeded/{name}/patch.diff', shell=True, check=True)
+subprocess.run(f'git -C /repo worktree add -q --detach {wt} {BASE} && git -C {wt} apply {VERIF}/seeded/{name}/patch.diff', shell=True, check=True)
 try:
     from concurrent.futures import ThreadPoolExecutor
     def one(pid):
